@@ -113,6 +113,8 @@ class RF:
         if {k: v[1] for k, v in self.roots.items()} != {k: v[1] for k, v in o.roots.items()}:
             raise Unknown('sum of terms with different square-root factors')
         other = o.num if sign == 1 else -o.num
+        if self.den == o.den:
+            return RF(self.num + other, self.den, self.roots)
         return RF(self.num * o.den + other * self.den, self.den * o.den, self.roots)
 
     def squared(self):
@@ -436,3 +438,78 @@ def run_vector_function(fnode, ev):
             raise Unknown(f'statement `{norm(st)[:40]}`')
     block(fnode.body)
     return outs
+
+
+# ------------------------------------------------------------------------------------------------ tensors of rational functions
+class Q:
+    """a rational function with Python operators, so that numpy object arrays of Q give broadcasting, axis reductions and layout
+    operations; `log` produces an uninterpreted atom, two atoms being the same symbol when their arguments are equal rational
+    functions (cross-multiplication)"""
+    atoms = []          # [(RF argument, symbol name)] - reset per analysis
+
+    def __init__(self, rf):
+        self.rf = rf
+
+    @staticmethod
+    def sym(name):
+        return Q(RF(Poly.sym(name)))
+
+    @staticmethod
+    def const(c):
+        return Q(RF(Poly.const(c)))
+
+    @staticmethod
+    def lift(o):
+        if isinstance(o, Q):
+            return o
+        if isinstance(o, (int, float)) and not isinstance(o, bool):
+            return Q.const(Fraction(o).limit_denominator(1 << 30))
+        raise Unknown(f'operand {type(o).__name__}')
+
+    def __add__(self, o):
+        return Q(self.rf.add(Q.lift(o).rf))
+    __radd__ = __add__
+
+    def __sub__(self, o):
+        return Q(self.rf.add(Q.lift(o).rf, -1))
+
+    def __rsub__(self, o):
+        return Q(Q.lift(o).rf.add(self.rf, -1))
+
+    def __mul__(self, o):
+        return Q(self.rf.mul(Q.lift(o).rf))
+    __rmul__ = __mul__
+
+    def __truediv__(self, o):
+        return Q(self.rf.mul(Q.lift(o).rf, -1))
+
+    def __rtruediv__(self, o):
+        return Q(Q.lift(o).rf.mul(self.rf, -1))
+
+    def __neg__(self):
+        return Q(RF(-self.rf.num, self.rf.den, self.rf.roots))
+
+    def __pow__(self, k):
+        if not isinstance(k, int) or not 0 <= k <= 4:
+            raise Unknown('power')
+        out = Q.const(1)
+        for _ in range(k):
+            out = out * self
+        return out
+
+    def log(self):
+        for arg, name in Q.atoms:
+            if arg.num * self.rf.den == self.rf.num * arg.den:
+                return Q.sym(name)
+        name = f'LOG{len(Q.atoms)}'
+        Q.atoms.append((self.rf, name))
+        return Q.sym(name)
+
+    def same(self, o):
+        return self.rf.num * o.rf.den == o.rf.num * self.rf.den
+
+    def __eq__(self, o):          # element-wise comparisons in masks: never true for symbolic cells
+        return False
+
+    def __hash__(self):
+        return id(self)
